@@ -72,6 +72,8 @@ def _default_pair(prog, eng, attr):
 
 
 def check(run, prog, tier):
+    from . import model as _model
+    _model.audit(run, prog, 'C08')
     run.explanation = (
         "assign_outgoing is loop-free: its paths give the complete transition function (returned pair, "
         "stored next pair) as terms over the remembered (flag, id); the id is only compared with constants "
@@ -126,7 +128,7 @@ def check(run, prog, tier):
 
     with run.part("Q1 transition table"):
         _transition_table(run, fi, paths, memterm, keyp, old_rec, is_id, is_flag)
-    _rest(run, prog, eng, scan_=None, mem=mem)
+    _rest(run, prog, eng, scan_=None, mem=mem, tier=tier)
 
 
 def _transition_table(run, fi, paths, memterm, keyp, old_rec, is_id, is_flag):
@@ -196,7 +198,7 @@ def _transition_table(run, fi, paths, memterm, keyp, old_rec, is_id, is_flag):
 
 
 
-def _rest(run, prog, eng, scan_, mem):
+def _rest(run, prog, eng, scan_, mem, tier="quick"):
     fi = prog.func(ASSIGN)
     # ------------------------------------------------------------------ Q2 single writer
     scan = Scan(prog)
@@ -347,6 +349,12 @@ def _rest(run, prog, eng, scan_, mem):
                 run.ob("Q5", f"{f2.qual}:transport", ok, loc(f2, e.node),
                        f"{f2.qual} writes to the transport" + ("" if ok else " directly (bypasses send / send_sd)"))
     run.floor("Q5-transport", n_raw, 1)
+    # the flag and id handed to SOMEIPSDHeader(..) / SOMEIPHeader(..) are the ones on the wire: the header copy made while
+    # the option indexes are assigned keeps the flags, the writer puts them into the flags byte
+    from .sdcodec import codec_keeps
+    with run.part("Q6 flag on the wire"):
+        codec_keeps(run, prog, tier, "Q6", ("SOMEIPSDHeader.assign_option_indexes:shared-array-collected", "SOMEIPSDHeader.build:flags-byte"),
+                    "the reboot flag computed by assign_outgoing does not reach the wire")
     run.not_decided += ["thread interleavings of assign_outgoing (the lock is not part of the stated property)"]
 
 
